@@ -14,6 +14,7 @@ from lib import pipes
 from checks import C01
 
 LEVEL = "proof"
+PINS = ["gwcs/wcs.py::WCS.invert", "gwcs/wcs.py::WCS.backward_transform"]
 RULE = ("integer-exact invertible pipelines (1..5 transforms, dim 1..4, permutations, user-supplied inverses, some "
         "non-invertible leaves): backward_transform, its .inverse, invert(), compared with the model; then a step is replaced in place "
         "and everything is compared again. Numeric family: affine/rotation chains and all zenithal projections at sampled pointings, "
@@ -65,17 +66,23 @@ def numeric_family(ctx, problems):
         ctx.case(key=("num", code, ra, dec, ang, scale, parity, x, y), nontrivial=True, kind="numeric/" + code,
                  sample={"projection": code, "pointing": [ra, dec], "pixel": [x, y], "roundtrip_err_px": err})
         # conditioning: wcslib's (partly iterative) projections are accurate to ~1e-10 deg in world units
-        if not ((err < 1e-7 or err * scale < 5e-10) and (werr < 1e-7 or werr * scale < 5e-10)):
+        # ... and where the forward map itself cannot resolve the pixel difference (the re-evaluated world point agrees to 1e-12 deg:
+        # SZP / AZP close to the pole), the pixel returned is a correct preimage even if it differs from the starting pixel by more
+        world_ok = werr < 1e-7 or werr * scale < 5e-10
+        pixel_ok = err < 1e-7 or err * scale < 5e-10 or (werr * scale < 1e-12 and err < 1e-3)
+        if not (world_ok and pixel_ok):
             problems.append((f"pixel->world->pixel error {err:.3g} px / world error {werr:.3g} px ({code}, ra={ra}, dec={dec})",
                              dict(code=code, ra=ra, dec=dec, angle=ang, scale=scale, parity=parity, pixel=[x, y])))
 
 
 def run(ctx):
+    from lib import pins
     from py2coq import gen_pipeline as G, t2
     from lib.common import REPO
     from gwcs import wcs
     ctx.trusted += ["tools/py2coq translator; hand model m_backward_transform (Backward.v)", "tools/checks/C02.py generators and oracle"]
     ctx.gate()
+    pins.check(ctx, PINS)
     try:
         gen_src = G.gen(REPO)
         ctx.oblige("translate: gwcs/wcs.py pipeline methods within the py2coq subset", True)
@@ -153,6 +160,15 @@ def run(ctx):
                 inv_ints = pipes.to_ints(w.invert(*pt))
                 if inv_ints != ints:
                     problems.append((f"[{phase}] invert({pt}) = {inv_ints} differs from backward_transform {ints}", dict(point=pt)))
+                # ... also when keyword arguments meant for the iterative solver are passed along (they are documented as ignored then)
+                kw = rng.choice([dict(quiet=True), dict(tolerance=1e-7), dict(maxiter=30, adaptive=False), dict(detect_divergence=True, quiet=False)])
+                try:
+                    inv_kw = pipes.to_ints(w.invert(*pt, **kw))
+                except Exception as e:  # noqa
+                    inv_kw = f"raised {type(e).__name__}"
+                if inv_kw != ints:
+                    problems.append((f"[{phase}] invert({pt}, **{kw}) = {inv_kw} although the exact backward transform gives {ints} "
+                                     f"(dim {n}, user inverse: {any(l.custom is not None for l in leaves)})", dict(point=pt, kwargs=str(kw), dim=n)))
                 # round trip where every leaf inverse is a true inverse
                 if all(l.custom is None or getattr(l, 'custom_true', False) for l in leaves):
                     world = pipes.to_ints(w(*pt))
